@@ -204,15 +204,18 @@ int main()
     else if(hxIs(l, "state", 1))
     {
       Buffer& b = *var[v];
+      // white-box: the raw `_capacity` field (not capacity()), head-room, where the pointers point; then the
+      // observers isEmpty() and capacity() as the public interface reports them
       if(b.buffer)
-        printf("state %lu %lu %lu own", (unsigned long)b.size(), (unsigned long)b.capacity(), (unsigned long)(b.bufferStart - b.buffer));
+        printf("state %lu %lu %lu own", (unsigned long)(b.bufferEnd - b.bufferStart), (unsigned long)b._capacity, (unsigned long)(b.bufferStart - b.buffer));
       else
       {
         const unsigned char* p = (const unsigned char*)b.bufferStart;
         const char* kind = b.bufferStart == (byte*)&b._capacity ? "dflt"
           : (p >= &storage[0][0] && p < &storage[0][0] + sizeof(storage)) ? "stale" : "att";
-        printf("state %lu %lu - %s", (unsigned long)b.size(), (unsigned long)b.capacity(), kind);
+        printf("state %lu %lu - %s", (unsigned long)(b.bufferEnd - b.bufferStart), (unsigned long)b._capacity, kind);
       }
+      printf(" size=%lu empty=%d capacity=%lu", (unsigned long)b.size(), (int)b.isEmpty(), (unsigned long)((const Buffer&)b).capacity());
       hxEndLine();
       continue;
     }
